@@ -2735,7 +2735,15 @@ where
                 if packet.return_code() == ConnectReturnCode::Accepted {
                     self.status = ConnectionStatus::Connected;
                     if packet.session_present() {
-                        events.extend(self.send_stored());
+                        let resent = self.send_stored();
+                        let sent_any = resent
+                            .iter()
+                            .any(|e| matches!(e, GenericEvent::RequestSendPacket { .. }));
+                        events.extend(resent);
+                        if sent_any {
+                            // Retransmissions are sends: the PINGREQ timer restarts
+                            self.send_post_process(&mut events);
+                        }
                     } else {
                         self.clear_store_related();
                     }
@@ -2820,7 +2828,15 @@ where
                     }
 
                     if packet.session_present() {
-                        events.extend(self.send_stored());
+                        let resent = self.send_stored();
+                        let sent_any = resent
+                            .iter()
+                            .any(|e| matches!(e, GenericEvent::RequestSendPacket { .. }));
+                        events.extend(resent);
+                        if sent_any {
+                            // Retransmissions are sends: the PINGREQ timer restarts
+                            self.send_post_process(&mut events);
+                        }
                     } else {
                         self.clear_store_related();
                     }
